@@ -68,6 +68,20 @@ def rand_ivs(rng, mode, n, kind):
             # a pile of intervals sharing one start (often 0) with different stops
             a = rng.choice([0, 0, 0, xs[len(xs) // 2]])
             out += [(a, a + rng.randint(1, 60)) for _k in range(rng.choice([3, 9, 12, 20]))]
+        elif r < 0.75:
+            # a deep pile-up: 63..300 intervals sharing one STOP (distinct or equal starts), or identical copies, so that
+            # runs of equal keys in the sorted starts / stops are longer than any linear-scan cap (32, 64, 128, 256)
+            k = rng.choice([63, 64, 65, 66, 70, 128, 129, 130, 257, 300])
+            e = rng.choice([xs[len(xs) // 2] + 7, span + 5, 450])
+            sh = rng.random()
+            if sh < 0.5:
+                out += [(max(0, e - 1 - i) if kind != 'ne' else max(0, min(e - 1, e - 1 - i)), e) for i in range(k)]
+            elif sh < 0.75:
+                a = max(0, e - rng.randint(1, 50))
+                out += [(a, e)] * k
+            else:
+                a = rng.choice([0, xs[len(xs) // 3]])
+                out += [(a, a + 1 + i) for i in range(k)]      # and the mirror image: one start, k distinct stops
         rng.shuffle(out)
         return out
     out = []
@@ -123,6 +137,15 @@ def iv_sx(ivs, first_id=0):
 
 
 def case(mode, ivs, ops):
+    """In about a quarter of the cases a `reload` (bincode round trip of the index) or a `clone` is slipped in at a
+    position derived from the case text itself (deterministic): both must leave the index unchanged."""
+    import zlib
+    h = zlib.crc32(sx.dump(['lap', width(mode), iv_sx(ivs), ['ops'] + ops]).encode())
+    ops = list(ops)
+    if h % 5 == 0:
+        ops.insert((h >> 8) % (len(ops) + 1), ['reload'])
+    if h % 11 == 0:
+        ops.insert((h >> 16) % (len(ops) + 1), ['clone'])
     return sx.dump(['lap', width(mode), iv_sx(ivs), ['ops'] + ops])
 
 
